@@ -65,11 +65,15 @@ def check_filter_table(ctx):
     from ..roundtrip import SuspectCtx
     inst = 'additional parameters attached by model name'
 
+    def lookup(name_poly):
+        # the entry for a name: the value at the position the name has among the keys (keys and values as the dictionary holds them, in one order)
+        return mk_fn('at', B('k', sym('lookup_values', 'k')), P(mk_fn('keypos', B('k', sym('lookup_keys', 'k')), P(name_poly))))
+
     class _Lookup(Foreign):
         def sl_getitem(self, interp, key, node):
             k_ = interp._as_arr(key)
             if isinstance(k_, Arr):
-                return Arr(k_.dims, mk_fn('lookup', P(k_.poly)), unit=num(1))
+                return Arr(k_.dims, lookup(k_.poly), unit=num(1))
             return NotImplemented
 
         def sl_contains(self, interp, key):
@@ -92,13 +96,14 @@ def check_filter_table(ctx):
         # a column built along another axis of the same length and attached to the table: it lands on the rows by position
         col = Arr((R_,), alg.index_at(col.poly, col.dims[0], sym('idx:' + R_, R_)), unit=col.unit)
     if isinstance(col, Arr) and isinstance(names2, Arr) and col.mask is None and tuple(col.dims) == (R_,):
-        want = [mk_fn('lookup', P(mk_fn('strip', P(names2.poly)))), mk_fn('lookup', P(names2.poly)), mk_fn('lookup', P(mk_fn('strip', P(sym('mname', R_))))), mk_fn('lookup', P(sym('mname', R_)))]
+        want = [lookup(mk_fn('strip', P(names2.poly))), lookup(names2.poly), lookup(mk_fn('strip', P(sym('mname', R_)))), lookup(sym('mname', R_))]
         if any(alg.is_zero(col.poly - w_)[0] for w_ in want):
             ctx.ok('PERM-9', inst, where_, 'row r receives additional[par][name of row r]')
             decided = True
         else:
             syms_, fns_ = alg.leaf_syms(col.poly)
-            if syms_ <= {'tname', 'mname', 'p1', 'chi2', 'av', 'sc', 'model_id'} | {x for x in syms_ if x.startswith('idx:')} and fns_ <= {'lookup', 'strip', 'at', 'argsort', 'invperm', 'nonzero', 'isin', 'len'}:
+            if syms_ <= {'tname', 'mname', 'p1', 'chi2', 'av', 'sc', 'model_id', 'lookup_keys', 'lookup_values'} | {x for x in syms_ if x.startswith('idx:')} \
+                    and fns_ <= {'lookup', 'strip', 'at', 'argsort', 'invperm', 'nonzero', 'isin', 'len', 'keypos', 'rank'}:
                 ctx.violation('PERM-9', inst, where_, 'additional parameters are not looked up by the row\'s model name: row r receives %s' % alg.show(col.poly, 160), 'additional-by-name')
                 decided = True
     clash = [f for f in I2.findings if f.kind == 'label-clash']
@@ -165,6 +170,14 @@ class NamedLookup(Foreign):
 
     def sl_contains(self, interp, k):
         return True
+
+    def sl_method(self, interp, name, args, kw, node):
+        # the dictionary taken apart: its keys and its values, in the one order it holds them
+        if name == 'values' and not args:
+            return symarr('lookup_%s_values' % self.key, ('k',), unit=num(1))
+        if name == 'keys' and not args:
+            return symarr('lookup_%s_keys' % self.key, ('k',))
+        return NotImplemented
 
 
 class ConsumerHooks(Hooks):
@@ -507,7 +520,8 @@ def check_headers_semantic(ctx):
                 for v in w.values:
                     if isinstance(v, Arr):
                         syms, fns_ = alg.leaf_syms(v.poly)
-                        src = [n_ for n_ in ('zeta', 'alpha') if 'lookup_' + n_ in fns_] + (['p1'] if 'p1' in syms and not any(f.startswith('lookup_') for f in fns_) else [])
+                        src = [n_ for n_ in ('zeta', 'alpha') if 'lookup_' + n_ in fns_ or 'lookup_%s_values' % n_ in syms] \
+                            + (['p1'] if 'p1' in syms and not any(f.startswith('lookup_') for f in fns_ | syms) else [])
                         if len(src) == 1 and (not cols or cols[-1] != src[0]):
                             cols.append(src[0])
         cols = [c for k_, c in enumerate(cols) if c not in cols[:k_]]          # first appearance of each parameter among the values of a row
@@ -564,6 +578,7 @@ WR = 'sedfitter/write_parameter_ranges.py'
 EP = 'sedfitter/extract_parameters.py'
 P1 = 'sedfitter/plot_params_1d.py'
 MUST_FIRE = [
+    ('additional parameters looked up for all rows at once: the rank among the sorted keys used as a position among the keys', [('sedfitter/fit_info.py', "            table_sorted[par] = np.zeros(len(table_sorted), dtype=float)\n            for i, name in enumerate(table_sorted['MODEL_NAME']):\n                table_sorted[par][i] = additional[par][name.strip()]\n", "            names = np.char.strip(table_sorted['MODEL_NAME'])\n            keys = np.array(list(additional[par].keys()))\n            values = np.array(list(additional[par].values()), dtype=float)\n            order = np.argsort(keys)\n            table_sorted[par] = values[np.searchsorted(keys, names, sorter=order)]\n")]),
     ('additional parameters attached in sorted order while the headers list them in dictionary order', [(FI, "        for par in additional:\n", "        for par in sorted(additional):\n")]),
     ('best value taken from the first fit with a defined value', [(WR, "(np.nanmin(info.av), info.av[0], np.nanmax(info.av))", "(np.nanmin(info.av), info.av[~np.isnan(info.av)][0], np.nanmax(info.av))")]),
     ('t.sort removed in write_parameters', [(WP, "    t.sort('MODEL_NAME')\n", "")]),
@@ -586,6 +601,7 @@ MUST_FIRE = [
                                           "            for info in self._fits[1:]:\n                if info.meta != self._fits[0].meta:\n                    raise ValueError(\"The meta property of all FitInfo instances should match\")\n\n            self._fits = fits\n")]),
 ]
 MUST_SILENT = [
+    ('additional parameters looked up for all rows at once, through the sorting permutation', [('sedfitter/fit_info.py', "            table_sorted[par] = np.zeros(len(table_sorted), dtype=float)\n            for i, name in enumerate(table_sorted['MODEL_NAME']):\n                table_sorted[par][i] = additional[par][name.strip()]\n", "            names = np.char.strip(table_sorted['MODEL_NAME'])\n            keys = np.array(list(additional[par].keys()))\n            values = np.array(list(additional[par].values()), dtype=float)\n            order = np.argsort(keys)\n            table_sorted[par] = values[order[np.searchsorted(keys, names, sorter=order)]]\n")]),
     ('range minimum as the minimum of the defined values', [(WR, "(np.nanmin(info.av), info.av[0], np.nanmax(info.av))", "(info.av[~np.isnan(info.av)].min(), info.av[0], np.nanmax(info.av))")]),
     ('rank by scattering arange through the sorting permutation', [(FI, "index = np.argsort(np.argsort(self.model_name))", "by_name = np.argsort(self.model_name)\n        index = np.empty(len(by_name), dtype=np.intp)\n        index[by_name] = np.arange(len(by_name), dtype=np.intp)")]),
     ('rows picked by position instead of by mask', [(FI, "table_subset = input_table[subset]", "table_subset = input_table[np.flatnonzero(subset)]")]),
